@@ -75,6 +75,55 @@ func extractC15(c *Ctx) {
 	}
 	c.Add("resolverHashOrder", "List String", LeanStrList(order), src, "hash/compare/parse/save order in resolveWithMethod")
 
+	// ---- resolveWithMethod: the bookkeeping is committed on the success return path only ----------------
+	// result names (a named result can be reassigned by a deferred function after `return`), every defer statement
+	// of the function, and the statements from the first hash assignment to the end of the body.
+	var commit []string
+	if fd := c.FuncDecl(file, "Resolver", "resolveWithMethod"); fd != nil {
+		named := false
+		if fd.Type.Results != nil {
+			for _, f := range fd.Type.Results.List {
+				if len(f.Names) > 0 {
+					named = true
+				}
+			}
+		}
+		if named {
+			commit = append(commit, "results:named")
+		} else {
+			commit = append(commit, "results:unnamed")
+		}
+		ast.Inspect(fd.Body, func(n ast.Node) bool {
+			if d, ok := n.(*ast.DeferStmt); ok {
+				commit = append(commit, "defer:"+squash(c.Src(d.Call)))
+			}
+			return true
+		})
+		tail := false
+		for _, st := range fd.Body.List {
+			s := squash(c.Src(st))
+			if s == "r.lastProtoHash=newProtoHash" || s == "r.lastServicesHash=newServicesHash" {
+				tail = true
+			}
+			if !tail {
+				continue
+			}
+			switch {
+			case s == "r.lastProtoHash=newProtoHash":
+				commit = append(commit, "save:lastProtoHash")
+			case s == "r.lastServicesHash=newServicesHash":
+				commit = append(commit, "save:lastServicesHash")
+			case strings.HasPrefix(s, "r.logger."):
+				commit = append(commit, "log")
+			case strings.HasPrefix(s, "return"):
+				commit = append(commit, "return:"+strings.TrimPrefix(s, "return"))
+			default:
+				commit = append(commit, "?:"+s)
+			}
+		}
+	}
+	c.Add("resolverCommitShape", "List String", LeanStrList(commit), src, "resolveWithMethod: result names, defers, and everything from the first hash assignment to the end of the body")
+
 	// ---- hash functions -----------------------------------------------------------------------
 	var writes []string
 	src = ""
